@@ -1,8 +1,112 @@
 import Ypv.Drv.Codec
-/-! Driver handler for C07 (stub: replaced by the module that models C07) -/
+import Ypv.Drv.C12
+import Ypv.Model.Search
+import Ypv.Spec.Search
+/-! Driver handler for C07: the `yaml-paths` search model and its specification.
+
+Documents (`SNode`): the common document JSON, with
+* map entries `[key, node]` or `[key, node, keyAnchor]`, inherited entries under `"me"`, the anchor
+  names of the merge references under `"refs"`;
+* set members `key` or `[key, anchor]`. -/
 namespace Ypv.Drv.C07
 open Lean (Json)
+open Ypv Ypv.Drv Ypv.Search
 
-def handle (_op : String) (_j : Json) : Except String Json := throw "C07: driver not implemented yet"
+def akeyOfJson (j : Json) : Except String AKey := do
+  match j with
+  | .arr #[kj, .str a] => pure ⟨some (s2l a), ← keyOfJson kj⟩
+  | .arr #[kj, .null] => pure ⟨none, ← keyOfJson kj⟩
+  | _ => pure ⟨none, ← keyOfJson j⟩
+
+partial def snodeOfJson (j : Json) : Except String SNode := do
+  let k ← getStr j "k"
+  let a := optStr j "a"
+  let entries (field : String) : Except String (List (AKey × SNode)) := do
+    match j.getObjVal? field with
+    | .ok (.arr es) => es.toList.mapM (fun e => do
+        match e with
+        | .arr #[kj, vj] => pure (⟨none, ← keyOfJson kj⟩, ← snodeOfJson vj)
+        | .arr #[kj, vj, .str ka] => pure (⟨some (s2l ka), ← keyOfJson kj⟩, ← snodeOfJson vj)
+        | .arr #[kj, vj, .null] => pure (⟨none, ← keyOfJson kj⟩, ← snodeOfJson vj)
+        | _ => throw "map entry: [key, node(, keyAnchor)] expected")
+    | _ => pure []
+  match k with
+  | "seq" => pure (.seq a (← (← getArr j "i").toList.mapM snodeOfJson))
+  | "map" =>
+    let refs := match j.getObjVal? "refs" with
+      | .ok (.arr rs) => rs.toList.filterMap (fun r => match r with | .str s => some (s2l s) | _ => none)
+      | _ => []
+    pure (.map a (← entries "e") (← entries "me") refs)
+  | "set" => pure (.set a (← (← getArr j "m").toList.mapM akeyOfJson))
+  | _ => pure (.scalar a (← scalarOfJson j))
+
+def srefToJson : SRef → Json
+  | .key k => Json.arr #["k", keyToJson k]
+  | .idx i => Json.arr #["i", Json.num (Lean.JsonNumber.fromNat i)]
+  | .member k => Json.arr #["m", keyToJson k]
+  | .mref j => Json.arr #["r", Json.num (Lean.JsonNumber.fromNat j)]
+
+def saddrToJson (a : SAddr) : Json := Json.arr (a.map srefToJson).toArray
+
+def optsOfJson (j : Json) : Except String Opts := do
+  pure { searchValues := ← getBool j "sv", searchKeys := ← getBool j "sk",
+         searchAnchors := ← getBool j "sa", inclKeyAliases := ← getBool j "ika",
+         inclValueAliases := ← getBool j "iva", expand := ← getBool j "expand",
+         fslash := ← getBool j "fslash" }
+
+mutual
+/-- every scalar the search may hand to `search_matches`: values, keys, anchor names -/
+partial def haystacks : SNode → List Scalar
+  | .scalar a v => v :: anc a
+  | .seq a items => anc a ++ items.flatMap haystacks
+  | .map a own merged refs =>
+    anc a ++ (own ++ merged).flatMap (fun (k, v) => keyScalar k.key :: (anc k.anchor ++ haystacks v))
+      ++ refs.map (fun r => Scalar.str r)
+  | .set a ms => anc a ++ ms.flatMap (fun k => keyScalar k.key :: anc k.anchor)
+partial def anc : Option Str → List Scalar
+  | some n => [.str n]
+  | none => []
+end
+
+def strsJson (l : List Str) : Json := Json.arr (l.map (fun s => Json.str (l2s s))).toArray
+
+def printedJson (t : Str) : Json :=
+  match printed t with
+  | .ok r => Json.str (l2s r)
+  | .error _ => Json.null
+
+def handle (op : String) (j : Json) : Except String Json := do
+  match op with
+  | "texts" =>
+    -- {"doc"} ↦ the texts `str(haystack)` a regular expression would be run on
+    let d ← snodeOfJson (← j.getObjVal? "doc")
+    pure (Json.mkObj [("texts", strsJson ((haystacks d).map pyStr).eraseDups)])
+  | "term" =>
+    -- {"x": expression} ↦ get_search_term
+    let x := s2l (← getStr j "x")
+    match getSearchTerm x with
+    | .error e => pure (Json.mkObj [("err", errToJson e)])
+    | .ok none => pure (Json.mkObj [("none", .bool true)])
+    | .ok (some t) => pure (Json.mkObj [("inv", .bool t.inv), ("m", methodName t.m), ("term", l2s t.term)])
+  | "search" =>
+    let d ← snodeOfJson (← j.getObjVal? "doc")
+    let o ← optsOfJson (← j.getObjVal? "opts")
+    let tj ← j.getObjVal? "term"
+    let t : Term := ⟨← getBool tj "inv", ← methodOfName (← getStr tj "m"), s2l (← getStr tj "term")⟩
+    let tbl := C12.rxTable j
+    let rx := C12.rxOf tbl
+    if (haystacks d).any (fun v => (matchOf rx t v).isNone) then
+      pure (Json.mkObj [("oom", .bool true)])
+    else
+      let c := Ctx.ofTerm o rx t
+      let hits := search c d
+      let prs := hits.map (fun h => printed h.path)
+      let texts := prs.filterMap (fun p => match p with | .ok r => some r | .error _ => none)
+      pure (Json.mkObj [
+        ("hits", Json.arr (hits.map (fun h => Json.mkObj [("tmp", l2s h.path), ("addr", saddrToJson h.addr),
+                                                           ("printed", printedJson h.path)])).toArray),
+        ("dedup", strsJson (dedup texts [])),
+        ("spec", Json.arr ((Spec.found c d).map saddrToJson).toArray)])
+  | _ => throw s!"C07: unknown op {op}"
 
 end Ypv.Drv.C07
